@@ -29,8 +29,9 @@ ALIASES = {'latin_1': 'iso-8859-1', 'cp500': 'IBM500', 'cp037': 'IBM037', 'ascii
 
 def call_style(case):
     """how this case calls dumps/loads: 0 = options by keyword, 1 = all arguments positionally, 2 = by keyword with
-    the codec named by one of its registered aliases (the codec registry, not the library, resolves names)"""
-    return (len(case['f']) + sum(f[0] for f in case['f']) + len(case.get('pds') or [])) % 3
+    the codec named by one of its registered aliases (the codec registry, not the library, resolves names), 3 = with
+    the configuration wrapped in a non-dict Mapping (MappingProxyType / ChainMap / UserDict)"""
+    return (len(case['f']) + sum(f[0] for f in case['f']) + len(case.get('pds') or [])) % 4
 
 
 def lib_call(fn, first, case, kw):
@@ -39,6 +40,15 @@ def lib_call(fn, first, case, kw):
         return fn(first, kw['encoding'], kw['iso_config'], kw['hex_bitmap'])
     if style == 2 and kw['encoding'] in ALIASES:
         return fn(first, **dict(kw, encoding=ALIASES[kw['encoding']]))
+    if style == 3 and kw['iso_config'] is not None:
+        # the configuration handed over as a read-only / layered / wrapped mapping instead of a plain dict
+        import collections
+        import types
+        cfg = kw['iso_config']
+        which = sum(f[0] for f in case['f']) % 3
+        wrapped = types.MappingProxyType(cfg) if which == 0 else collections.ChainMap({}, cfg) if which == 1 \
+            else collections.UserDict(cfg)
+        return fn(first, **dict(kw, iso_config=wrapped))
     return fn(first, **kw)
 
 
@@ -487,6 +497,10 @@ def long_cases(cfgname, enc, hx, seed):
         return c
     yield mk(bits)
     yield mk(bits, small=False)
+    # every element present at its LONGEST admissible value (tens of kilobytes), and at its shortest
+    for vi in (1, 0):
+        yield {'cfg': cfgname, 'enc': enc, 'hex': hx, 'seed': seed,
+               'f': [[b] + isogen.boundary_variants(cfg[str(b)])[vi] for b in bits]}
     ncar = len(iso_ref.pds_carrier_bits(cfg))
     yield mk(bits, pds=[[1, 3], [23, 0], [52, 990], [158, 12], [9999, 500], [148, 700]] if ncar >= 4 else
              [[1, 3], [23, 0], [52, 900]])
